@@ -409,7 +409,7 @@ def shrink(case):
         if t["k"] == "delim":
             yield dict(case, type=t["i"], plan=case["plan"])
         inner = t["i"] if t["k"] == "delim" else t
-        if len(inner["fs"]) > 1:
+        if len(inner["fs"]) > (2 if inner["k"] == "union" else 1):   # (a union keeps two variants: fewer is a different, invalid input)
             yield dict(case, type=dict(inner, fs=inner["fs"][:-1]), plan=case["plan"][:-1])
         if case["base"]["o"] != "leaf" or len(case["base"]["v"]) > 1:
             yield dict(case, base={"o": "leaf", "v": [case["base"].get("v", [0])[0]], "how": "int", "raw": False})
